@@ -6,7 +6,7 @@ CONSTANTS Alphabet, MaxLen
 VARIABLES p, inEfun, approvedR, approvedW, policy
 INSTANCE FileGuard
 pv == <<p>>
-PInit == p = <<>> /\ inEfun = FALSE /\ approvedR = {} /\ approvedW = {} /\ policy = "allow"
+PInit == p = <<>> /\ inEfun = "" /\ approvedR = {} /\ approvedW = {} /\ policy = "allow"
 PNext == /\ Len(p) < MaxLen /\ \E c \in Alphabet : p' = Append(p, c)
          /\ UNCHANGED <<inEfun, approvedR, approvedW, policy>>
 PSpec == PInit /\ [][PNext]_<<p, inEfun, approvedR, approvedW, policy>>
